@@ -184,13 +184,15 @@ def _env_state(r, weights=(0.7, 0.15, 0.15)):
     return 'nodir'
 
 
-def _touched_state(r, same_as=None):
+def _touched_state(r, same_as=None, p_unset=0.32):
     """unset, or a distinct sentinel; one sentinel equals the value the code will set."""
     u = r.random()
-    if u < 0.35:
+    if u < p_unset:
         return None
-    if u < 0.5 and same_as is not None:
+    if u < 0.47 and same_as is not None:
         return same_as
+    if u < 0.57:
+        return ''                      # set, but empty: a falsy "set" state
     return 'orig_' + _name(r, 4)
 
 
@@ -203,18 +205,27 @@ def _fault_draw(r, tier):
             'exc': r.choice(inject.OSERROR_FAMILY + inject.OTHER_FAMILY)}
 
 
-def gen_invocation(r, w, tier, j):
+def gen_invocation(r, w, tier, j, stratum=0):
     u = r.random()
     sp = w['spectro']
     if u < 0.55:
         inv = {'entry': 'template_input', 'par': gen_par(r, w),
                'flux': r.random() < 0.3, 'verbose': r.random() < 0.2}
         env = {'RUN2D': _touched_state(r, sp['run2d']), 'RUN1D': _touched_state(r, sp['run1d'])}
-        healthy = r.random() < 0.65
-        for k in ('BOSS_SPECTRO_REDUX', 'SPECTRO_REDUX'):
-            env[k] = 'ok' if healthy else _env_state(r, (0.6, 0.2, 0.2))
-        env['SPECTRO_MATCH'] = 'ok' if healthy else _env_state(r, (0.4, 0.5, 0.1))
-        env['PHOTO_RESOLVE'] = 'ok' if healthy else _env_state(r, (0.4, 0.5, 0.1))
+        # which of the two redux roots this parameter file needs depends on run2d
+        try:
+            int(dict(inv['par']['pairs']).get('run2d', sp['run2d']))
+            needed, other = 'SPECTRO_REDUX', 'BOSS_SPECTRO_REDUX'
+        except ValueError:
+            needed, other = 'BOSS_SPECTRO_REDUX', 'SPECTRO_REDUX'
+        patterns = [('ok', 'ok'), ('ok', 'ok'), ('ok', 'unset'), ('ok', 'unset'), ('unset', 'ok'),
+                    ('nodir', 'ok'), ('unset', 'unset'), ('ok', 'nodir'), None]
+        # the first invocation's pattern is stratified by the seed, later ones are drawn
+        pat = patterns[stratum % len(patterns)] if j == 0 else r.choice(patterns)
+        drawn = (_env_state(r, (0.6, 0.2, 0.2)), _env_state(r, (0.6, 0.2, 0.2)))
+        env[needed], env[other] = pat if pat is not None else drawn
+        env['SPECTRO_MATCH'] = _env_state(r, (0.5, 0.4, 0.1))
+        env['PHOTO_RESOLVE'] = _env_state(r, (0.5, 0.4, 0.1))
         inv['env'] = env
         u2 = r.random()
         if u2 < 0.55:
@@ -233,9 +244,7 @@ def gen_invocation(r, w, tier, j):
         entry = 'window_score' if u < 0.88 else 'window_read'
         inv = {'entry': entry, 'rescore': (r.random() < 0.5) if entry == 'window_score' else True,
                'score': 'real' if r.random() < 0.45 else 'stub'}
-        env = {'PHOTO_CALIB': _touched_state(r) if r.random() < 0.88 else None}
-        if env['PHOTO_CALIB'] is None and r.random() < 0.5:
-            env['PHOTO_CALIB'] = ''          # set but empty
+        env = {'PHOTO_CALIB': _touched_state(r, p_unset=0.15)}
         env['PHOTO_RESOLVE'] = _env_state(r, (0.8, 0.1, 0.1))
         env['PHOTO_REDUX'] = _env_state(r, (0.8, 0.1, 0.1))
         inv['env'] = env
@@ -249,5 +258,5 @@ def generate(seed, tier):
     r = random.Random(seed)
     w = gen_world(r, tier)
     n = r.choice([1, 1, 2, 2, 3, 4])
-    invs = [gen_invocation(r, w, tier, j) for j in range(n)]
+    invs = [gen_invocation(r, w, tier, j, stratum=seed % 997) for j in range(n)]
     return {'property': 'C20', 'seed': seed, 'tier': tier, 'world': w, 'invocations': invs}
